@@ -36,6 +36,7 @@ class Recorder:
         self.file = None           # remote mode: JSONL file
         self.hooks: Dict[str, Any] = {}
         self.clock = None          # virtual clock (C17)
+        self.atomic_sims = set()   # simulators that answer synchronously (never yield to the loop)
         self.instances: Dict[str, Any] = {}
 
     def ev(self, **kw):
@@ -310,8 +311,8 @@ class ScriptedSim(mosaik_api_v3.Simulator):
                 _time.sleep(fixed)          # a simulator that is busy for a while in this kind of request
             return
         ctl = REC.ctl
-        if ctl is None:
-            return
+        if ctl is None or self.sid in REC.atomic_sims:
+            return          # answers synchronously, like the in-process simulators of the test suite
         if REC.max_pre_yields and REC.lat_rng is not None:
             import asyncio
             for _ in range(REC.lat_rng.randrange(REC.max_pre_yields + 1)):
